@@ -77,6 +77,10 @@ func connectComponent(wf *sp.Workflow, w *WF, i int, procs []outPorter, rt *Runt
 	}
 	ca := procs[i].(*compAdapter)
 	for _, in := range n.Ins {
+		if in.Unconnected {
+			ca.in(in.Name) // the port exists but nothing is connected to it
+			continue
+		}
 		for _, e := range in.From {
 			up := procs[e.Node].OutPort(e.Port)
 			if w.Nodes[e.Node].Rec || n.Rec {
@@ -89,6 +93,10 @@ func connectComponent(wf *sp.Workflow, w *WF, i int, procs []outPorter, rt *Runt
 		}
 	}
 	for _, ps := range n.Params {
+		if ps.Unconnected {
+			ca.inp(ps.Name)
+			continue
+		}
 		if ps.From != nil {
 			ca.inp(ps.Name).From(procs[ps.From.Node].OutParamPort(ps.From.Port))
 		} else {
